@@ -1556,7 +1556,26 @@ type rec struct {
 	In     map[string]any `json:"in"`
 }
 
-type sink struct{ recs []rec }
+type sink struct {
+	recs []rec
+	path string // the child writes what it has so far here (checkpoints), so that a crash later loses nothing
+}
+
+func (s *sink) checkpoint() {
+	if s.path == "" {
+		return
+	}
+	b, err := json.Marshal(s.recs)
+	if err != nil {
+		panic(err)
+	}
+	if err := os.WriteFile(s.path+".tmp", b, 0o644); err != nil {
+		panic(err)
+	}
+	if err := os.Rename(s.path+".tmp", s.path); err != nil {
+		panic(err)
+	}
+}
 
 func (s *sink) Violate(fp, what string, in map[string]any) {
 	s.recs = append(s.recs, rec{Kind: "violate", Class: fp, What: what, In: in})
@@ -1622,8 +1641,15 @@ func runConcChild(w *casefile.Writer, seed uint64, iters int, extra map[string]a
 		if len(lines) > 14 {
 			lines = lines[:14]
 		}
-		w.Violate("crash:concurrent-fetch", "the process serving several filtered fetches at once (after a big document went through a filter) died: "+
-			err.Error()+": "+strings.Join(lines, " | "), extra)
+		w.Violate("crash:concurrent-fetch", "the process serving several filtered fetches at once (after a big document went through a filter and "+
+			"after fetches cancelled mid-stream) died: "+err.Error()+": "+strings.Join(lines, " | "), extra)
+		// what the child had recorded before it died still counts
+		if b, err := os.ReadFile(f.Name()); err == nil && len(b) > 0 {
+			var s sink
+			if json.Unmarshal(b, &s.recs) == nil {
+				s.apply(w)
+			}
+		}
 		return
 	}
 	b, err := os.ReadFile(f.Name())
@@ -1657,8 +1683,8 @@ func (s *cancelStream) Send(m *pstoreapi.BinaryData) error {
 }
 
 // concE2E is what the child does
-func concE2E(seed uint64, iters int) *sink {
-	w := &sink{}
+func concE2E(seed uint64, iters int, path string) *sink {
+	w := &sink{path: path}
 	extra := map[string]any{"concurrent_seed": seed, "iters": iters}
 	r := rng.New(seed ^ 0xC20D)
 	const G = 6
@@ -1769,6 +1795,7 @@ func concE2E(seed uint64, iters int) *sink {
 		cancel()
 	}
 	time.Sleep(50 * time.Millisecond) // let the cancelled handlers leave
+	w.checkpoint()
 	// G requests over disjoint sets of documents (g gets the positions congruent g mod G), at once
 	type ejob struct {
 		pos    []int
@@ -1935,14 +1962,7 @@ func main() {
 	concItersFlag := flag.Int("conciters", 200, "internal")
 	flag.Parse()
 	if *concChild != "" {
-		s := concE2E(*seed, *concItersFlag)
-		b, err := json.Marshal(s.recs)
-		if err != nil {
-			panic(err)
-		}
-		if err := os.WriteFile(*concChild, b, 0o644); err != nil {
-			panic(err)
-		}
+		concE2E(*seed, *concItersFlag, *concChild).checkpoint()
 		return
 	}
 	if *out == "" {
